@@ -175,14 +175,14 @@ def fc_assignments(keys: Iterable[str]) -> List[Dict[str, bool]]:
 
 # ------------------------------------------------------------------------------------------------ evaluating one tree
 def evaluate_tree(model: SrcModel, e, rc: Dict[str, str], fc: Optional[Dict[str, bool]] = None,
-                  via: str = "requirement") -> Dict[str, Any]:
+                  via: str = "requirement", hints: Optional[Dict[str, Optional[str]]] = None) -> Dict[str, Any]:
     """Abstractly evaluate one expression tree under one assignment. Returns a plain record."""
     keys = refsem.keys_of(e)
     fc_keys = [k for k in keys if refsem.key_kind(k) == "fc"]
     fcv = {k: ((fc or {}).get(k, True), None if (fc or {}).get(k, True) else f"{k} violated") for k in fc_keys}
 
     def run(ch):
-        h = Harness(model, ch, rc=rc, fc=fcv, hints=default_hints(keys))
+        h = Harness(model, ch, rc=rc, fc=fcv, hints=hints if hints is not None else default_hints(keys))
         try:
             res = h.requirement_evaluation(cond_tree(e))
         except PyRaise as err:
